@@ -282,7 +282,7 @@ def check_case(ctx, P, backend, names, kinds, rows, cols, rng_, clauses, cases, 
                     "none" if rng_ is None else "(sl %d %d %d)" % (rng_[0], rng_[2] + 1, rng_[1]), tok(cl))
                 ops = []
             elif entry == "mixed":
-                u, ops = "(url (proj none none) (sel %s))" % tok(url_cl), P["_ops"]
+                u, ops = "(url (proj none none) (sel %s))" % tok(cl[:(len(cl) + 1) // 2]), P["_ops"]
             else:
                 u, ops = "(url none)", P["_ops"]
             urlcases.append(("sc-url %s (%s) %s %s" % (sid, " ".join(names), u, ops_sexp(ops)), hexs(q),
